@@ -87,11 +87,40 @@ StepToDuration(e) ==
            dur == Add(MulSmall(MulSmall(Add(MulSmall(FromInt(e.res[1]), 86400), FromInt(e.res[2])), 100000), 10000), FromInt(e.res[3]))
        IN  Check(~Has(e, "exc") /\ dur = tot, "to_duration_preserves_fixed_length_total")
 
+\* LocalDate +/- Period: the (effective) years, months, weeks, days are applied in that order
+StepDatePeriod(e) ==
+  IF Known(e.cal) /\ ~(e.cal = "Persian Arithmetic" /\ (e.y < 476 \/ e.y + e.years < 476))
+  THEN LET afterYears == IF e.years # 0 THEN PlusYears(e.cal, e.y, e.m, e.d, e.years) ELSE <<e.y, e.m, e.d>>
+           ypos == YearPosOfOrdinal(e.cal, MonthOrdinal(e.cal, afterYears[1], afterYears[2]) + e.months)
+           yrOk == YearInRange(e.cal, e.y + e.years) /\ YearInRange(e.cal, ypos[1])
+           afterMonths == IF e.months # 0 /\ yrOk THEN PlusMonths(e.cal, afterYears[1], afterYears[2], afterYears[3], e.months) ELSE afterYears
+           day0 == IF yrOk THEN DayOf(e.cal, afterMonths[1], afterMonths[2], afterMonths[3]) ELSE 0
+           mid == day0 + e.weeks * 7
+           tgt == mid + e.days
+       IN  IF ~yrOk \/ mid < e.min_day \/ mid > e.max_day \/ tgt < e.min_day \/ tgt > e.max_day
+           THEN TRUE     \* leaving the range at any step: covered by the single-unit clauses
+           ELSE /\ Check(~Has(e, "exc"), "date_plus_period_in_range_must_not_raise")
+                /\ (Has(e, "res") => Check(e.res = tgt /\ e.res_cal = e.cal, "date_plus_period_applies_years_months_weeks_days_in_order"))
+  ELSE TRUE
+
+\* the Period value: componentwise sum and difference, builder round trips, equality by components
+StepPeriodAlgebra(e) ==
+  /\ Check(~Has(e, "exc"), "period_algebra_must_not_raise")
+  /\ Check(e.built = e.p, "period_builder_builds_the_components_it_was_given")
+  /\ (Has(e, "sum") => Check(e.sum = [i \in 1..10 |-> e.p[i] + e.q[i]], "period_sum_is_componentwise"))
+  /\ (Has(e, "diff") => Check(e.diff = [i \in 1..10 |-> e.p[i] - e.q[i]], "period_difference_is_componentwise"))
+  /\ (Has(e, "rebuilt") => Check(e.rebuilt = e.p /\ e.from_period = e.p, "period_to_builder_and_back_is_identity"))
+  /\ (Has(e, "changed") => Check(e.index_read /\ e.changed = [e.p EXCEPT ![e.changed_index] = @ + 1], "period_builder_index_addresses_one_unit"))
+  /\ (Has(e, "eq_copy") => Check(e.eq_copy /\ e.ne_changed, "period_equality_is_componentwise"))
+  /\ (Has(e, "has_date") => Check(e.has_date = (\E i \in 1..4 : e.p[i] # 0) /\ e.has_time = (\E i \in 5..10 : e.p[i] # 0), "period_component_kinds"))
+
 Init == l = 1
 Next == /\ l <= Len(Events) /\ l' = l + 1
         /\ LET e == Events[l] IN
            CASE e.op = "plus_days" -> StepPlusDays(e) [] e.op = "plus_months" -> StepPlusMonths(e)
              [] e.op = "plus_years" -> StepPlusYears(e) [] e.op = "between" -> StepBetween(e)
              [] e.op = "normalize" -> StepNormalize(e) [] e.op = "to_duration" -> StepToDuration(e)
+             [] e.op = "date_period" -> StepDatePeriod(e) [] e.op = "period_algebra" -> StepPeriodAlgebra(e)
+             [] e.op = "ym_plus" -> StepPlusMonths(e)
 Spec == Init /\ [][Next]_l
 =============================================================================
